@@ -224,12 +224,23 @@ def roundtrip_case(zmap):
 
 def run(ctx):
     zs = _zmap(ctx)
+    keys = [(sid, rid) for sid, rid, _ in zs]
+    if ctx.thorough:
+        chunks = [keys[i::15] for i in range(15)]
+        ctx.parallel(_explore, [c for c in chunks if c])
+    else:
+        _explore(ctx, keys)
+
+
+def _explore(ctx, keys):
+    import c04
+    zs = [(sid, rid, c04._zone_of(sid, rid)) for sid, rid in keys]
     zmap = {sid: z for sid, _, z in zs}
     rng = ctx.rng
     defs = [Z.zone_def_line(sid, z) for sid, _, z in zs]
     ops = list(defs)
     rt_cases = []
-    budget = ctx.scale(2600, 400000)  # transitions to probe
+    budget = ctx.scale(2600, 30000)  # transitions to probe (per worker in the thorough tier)
     trans = []  # (sid, transition instant, wall before, wall after)
     for sid, rid, z in zs:
         periods, tail = Z.zone_data(z)
